@@ -11,6 +11,10 @@ CHECKS = {
          "Operation-level schedules on the implementation (the two writes of set_backend interleave in the model only); NumPy-derived stand-in backends under the names jax/cupy; TLC, Json module and the rig's observation function are trusted.",
          "DESIGN.md 5/C17"),
 }
+CHECKS["C01"] = ("TLC-checked index-map specification (TensorIndex.tla) + trace validation of every configuration of the bounded domain",
+   "TensorIndex.tla defines unfold/partial_unfold/vec/matricize as index permutations derived from the documented layout and the folds independently in gather form; TLC checks on the spec, for every configuration (all shapes of order<=4, dims<=3, <=36 entries; order 5 in the thorough tier), that the map is a bijection and fold o unfold = id. Every such configuration is then executed by the real functions on label tensors in 9 dtypes (+bool by one-hot superposition) and 4 memory layouts and TLC validates each event (shape, layout, dtype, round trip) by exact equality. Data-obliviousness makes this decide all value assignments of those shapes.",
+   "Bounded shapes; NumPy backend only; TLC and the Json module trusted; the harness only builds label tensors and copies results.",
+   "DESIGN.md 5/C01")
 NOT_YET = {}
 
 def main():
